@@ -182,12 +182,14 @@ C09ok(E, tags, q) ==
       unsub == UnsubRetP(E, 1)
       emitThreads == { E[p].t : p \in { p \in Pos(E) : E[p].ev = "emitcall" } }
   IN (HasTag(tags, "observe_on") \/ HasTag(tags, "subscribe_on")) =>
-     /\ \A p1, p2 \in cbs : E[p1].t = E[p2].t                                        \* all on one thread ...
+     /\ (~HasTag(tags, "cold3") => \A p1, p2 \in cbs : E[p1].t = E[p2].t)                 \* all on one thread ...
      /\ \A p \in cbs : E[p].t # 0 /\ (HasTag(tags, "observe_on") => E[p].t \notin emitThreads)     \* ... that is neither the subscribing nor the emitting thread
      /\ \A p1, p2 \in cbs : p1 < p2 => \E e \in (p1 + 1)..(p2 - 1) : E[e].ev = "cbend" /\ E[e].u = 1     \* never two callbacks at once
      /\ (HasTag(tags, "cold3") \/ IsPrefixOf(d, s))                                      \* source order, nothing invented, terminal last
-     /\ (unsub = 0 /\ HasTag(tags, "observe_on") => d = s)                             \* nothing lost
+     /\ (unsub = 0 /\ HasTag(tags, "observe_on") /\ ~HasTag(tags, "cold3") => d = s)      \* nothing lost
      /\ (HasTag(tags, "subscribe_on") /\ unsub = 0 => d = IF HasTag(tags, "cold3") THEN << <<"n", 1>>, <<"n", 2>>, <<"n", 3>>, <<"c", 0>> >> ELSE s)
+     \* a cold source 1,2,3: every subscriber of the same observable gets all of it (each subscription has its own worker)
+     /\ (HasTag(tags, "cold3") => \A u \in Subscribers(E) : DeliveredEvents(E, u) = << <<"n", 1>>, <<"n", 2>>, <<"n", 3>>, <<"c", 0>> >>)
      \* events the source starts to emit after unsubscribe returned are not delivered (the i-th delivery carries the i-th emission)
      /\ (unsub # 0 /\ HasTag(tags, "observe_on")) => \A i \in 1..Len(d) : NthPos(E, "cbstart", 1, i) > unsub => NthPos(E, "emitcall", 1, i) < unsub
 
@@ -231,6 +233,9 @@ C16ok(E, tags, q, d) ==
              THEN /\ [i \in 1..Len(items) |-> items[i].v] = [i \in 1..g |-> emits[i].v]
                   /\ Len(term) = 1 /\ term[1].k = "e" /\ term[1].v = -2 /\ term[1].clk = emits[g].clk + d
              ELSE /\ [i \in 1..Len(cbs) |-> <<cbs[i].k, cbs[i].v>>] = [i \in 1..Len(emits) |-> <<emits[i].k, emits[i].v>>]
+     \* with a consumer that blocks in its callback only the necessary condition is judged: a TimedOut needs d without any item received
+     /\ (HasTag(tags, "timeout") \/ HasTag(tags, "timeout-slow")) =>
+          \A i \in 1..Len(cbs) : (cbs[i].k = "e" /\ cbs[i].v = -2) => \A j \in 1..Len(emits) : (emits[j].k = "n" /\ emits[j].clk <= cbs[i].clk) => emits[j].clk + d <= cbs[i].clk
      /\ HasTag(tags, "subset") =>        \* sample / debounce: only items the source emitted, in source order, none twice
           LET dv == Delivered(E, 1)
               sv == Emitted(E, 1)
